@@ -187,28 +187,44 @@ def generate(seed):
         s = slots_of(t)
         a, b = s["M"]
         ops = []
+        # which shared memory (0 / 1) each of the worker's two slots certainly refers to at this point of its program
+        hold = {a: (0 if t in holders[0] else None), b: (1 if t in holders[1] else None)}
         for _ in range(r.randint(1, budget)):
             f = r.choice(fam)
             if f == "share":
                 x = r.random()
                 which = r.choice([w for w in (0, 1)])
-                if x < 0.45 and main_keeps[which]:
-                    ops.append("assign M %d %d" % (r.choice([a, b]), which))
+                src = [sl for sl in (a, b) if hold[sl] is not None]
+                if x < 0.15 and src:
+                    # a slice of the shared memory: a new view object linked into the shared buffer's ring
+                    sl = r.choice(src)
+                    dst = b if sl == a else a
+                    ops.append("slice %d %d 1 1" % (dst, sl))
+                    hold[dst] = None
+                elif x < 0.5 and main_keeps[which]:
+                    sl = r.choice([a, b])
+                    ops.append("assign M %d %d" % (sl, which))
+                    hold[sl] = which
                 elif x < 0.8:
                     sl = r.choice([a, b])
                     ops += ["del M %d" % sl, "new M %d" % sl]
+                    hold[sl] = None
                 else:
                     ops.append("assign M %d %d" % (a, b))
+                    hold[a] = hold[b]
             elif f == "alloc":
+                hold[a] = hold[b] = None          # (conservative: the families below reuse both slots)
                 sl = r.choice([a, b])
                 fills += 1
                 ops += ["malloc 0 %d %d %s -1 0 0" % (sl, r.randint(1, 32), r.choice(["int", "byte", "double"])), "fill %d %d" % (sl, fills % 256)]
                 if r.random() < 0.5:
                     ops.append("free M %d" % sl)
             elif f == "slice":
+                hold[a] = hold[b] = None
                 fills += 1
                 ops += ["malloc 0 %d %d int -1 0 0" % (a, r.randint(2, 12)), "fill %d %d" % (a, fills % 256), "slice %d %d 1 1" % (b, a)]
             elif f == "pool":
+                hold[a] = hold[b] = None
                 fills += 1
                 ops += ["mkpool 0 %d" % s["P"], "reserve %d %d %d byte" % (s["P"], a, r.choice([8, 40, 128, 200])), "fill %d %d" % (a, fills % 256)]
                 if r.random() < 0.5:
@@ -219,6 +235,7 @@ def generate(seed):
                     if r.random() < 0.5:
                         ops += ["del K %d" % s["K"], "new K %d" % s["K"]]
                 else:
+                    hold[a] = hold[b] = None
                     fills += 1
                     ops += ["build 0 %d %d" % (s["K"], r.randrange(2)), "malloc 0 %d 4 int -1 0 0" % a, "fill %d %d" % (a, fills % 256),
                             "malloc 0 %d 4 int -1 0 0" % b, "run %d %d %d 4" % (s["K"], a, b)]
